@@ -8,11 +8,13 @@ namespace Helios.LB
 open Helios
 
 theorem rlGate_pool (y : Sys) (now : Nat) (r : Addr.Req) :
-    (rlGate y now r).1.pool = y.pool ∧ (rlGate y now r).1.kind = y.kind ∧ (rlGate y now r).1.cur = y.cur := by
+    (rlGate y now r).1.pool = y.pool ∧ (rlGate y now r).1.kind = y.kind ∧ (rlGate y now r).1.cur = y.cur ∧
+    (rlGate y now r).1.lastEl = y.lastEl := by
   simp only [rlGate]; split <;> simp
 
 theorem cbGate_pool (y : Sys) (now : Nat) :
-    (cbGate y now).1.pool = y.pool ∧ (cbGate y now).1.kind = y.kind ∧ (cbGate y now).1.cur = y.cur := by
+    (cbGate y now).1.pool = y.pool ∧ (cbGate y now).1.kind = y.kind ∧ (cbGate y now).1.cur = y.cur ∧
+    (cbGate y now).1.lastEl = y.lastEl := by
   simp only [cbGate]
   split
   · simp
@@ -33,7 +35,7 @@ theorem dispatch_result (y : Sys) (gen : Option Nat) (tid now : Nat) (r : Addr.R
     simp [hfirst.symm]
   | some i =>
     rw [hf] at hfirst
-    simp only []
+    simp only [Option.bind_some]
     -- the slot chosen holds an object whose name / health fields are those of y.pool[i]
     obtain ⟨b, hb, he⟩ := next_sound y.strat now (Addr.strategyKey r) i hfirst.symm
     have hbi : (y.pool.map (·.b))[i]? = some b := hb
@@ -58,16 +60,18 @@ theorem dispatch_result (y : Sys) (gen : Option Nat) (tid now : Nat) (r : Addr.R
           rw [eligible_of_sameHealth _ b now (hsh.2 i _ b hb' hb)]; exact he
         have hh := isHealthyAt_eligible
           { y with pool := zipBack y.pool (y.strat.next now (Addr.strategyKey r)).1.pool,
-                   cur := (y.strat.next now (Addr.strategyKey r)).1.cur } i now _ hz hel
+                   cur := (y.strat.next now (Addr.strategyKey r)).1.cur,
+                   lastEl := (y.strat.next now (Addr.strategyKey r)).1.lastEl } i now _ hz hel
         simp only [hh, if_true]
         obtain ⟨o2, ho2, hn2, _⟩ := isHealthyAt_slot
           { y with pool := zipBack y.pool (y.strat.next now (Addr.strategyKey r)).1.pool,
-                   cur := (y.strat.next now (Addr.strategyKey r)).1.cur } i now _ hz
+                   cur := (y.strat.next now (Addr.strategyKey r)).1.cur,
+                   lastEl := (y.strat.next now (Addr.strategyKey r)).1.lastEl } i now _ hz
         refine ⟨o2, ho2, ?_⟩
         rw [hn2]; simp only []
         rw [hnm, ← hbi]
       obtain ⟨o', hfo, hno⟩ := hname
-      simp only [hfo]
+      simp only [hfo, Option.map_some]
       refine ⟨?_, by simp, by simp, by simp, by simp⟩
       intro name hn
       simp at hn
@@ -117,7 +121,7 @@ theorem dispatch_complete (y : Sys) (tid now : Nat) (r : Addr.Req) (hg : Guard y
       have hp := (cbGate_pool (rlGate { y with total := y.total + 1 } now r).1 now)
       have hq := (rlGate_pool { y with total := y.total + 1 } now r)
       have hstrat : (cbGate (rlGate { y with total := y.total + 1 } now r).1 now).1.strat = y.strat := by
-        simp only [Sys.strat, Sys.backends, hp.1, hp.2.1, hp.2.2, hq.1, hq.2.1, hq.2.2]
+        simp only [Sys.strat, Sys.backends, hp.1, hp.2.1, hp.2.2.1, hp.2.2.2, hq.1, hq.2.1, hq.2.2.1, hq.2.2.2]
       rw [hstrat] at hnone
       have hall := next_complete y.strat now (Addr.strategyKey r) hg hnone
       intro o ho
